@@ -124,6 +124,12 @@ class Applied:
         if self.res_doc is not None and self.inv is not None and positions_ok(self.inv):
             self.undo_doc, self.undo_tag = sresult(lambda: self.inv.apply(self.res_doc))
         self.info = info
+        # where the implementation's map sends every position of the document (assoc = 1)
+        try:
+            mp = st.get_map()
+            self.mapped = [mp.map(p, 1) for p in range(doc.content.size + 1)]
+        except Exception:  # noqa: BLE001
+            self.mapped = []
 
     def term(self) -> str:
         info = self.info
@@ -131,7 +137,8 @@ class Applied:
         inv = f"(Ok {step_term(info, self.inv)})" if self.inv is not None and positions_ok(self.inv) else \
             f"(Err {self.inv_err or 'ErrInternal'})"
         undo = "None" if self.undo_tag is None else f"(Some {sresult_term(info, self.undo_doc, self.undo_tag)})"
-        return f"(AP {step_term(info, self.st)} {sresult_term(info, self.res_doc, self.tag)} {rs} {inv} {undo})"
+        mapped = lst(z(v) for v in self.mapped)
+        return f"(AP {step_term(info, self.st)} {sresult_term(info, self.res_doc, self.tag)} {rs} {inv} {undo} {mapped})"
 
     def desc(self):
         return {"step": step_desc(self.st), "result": list(self.tag), "map": self.ranges,
